@@ -2,7 +2,10 @@
    Only statements closed by `exact`; models live in Ext/TextFile.v, Ext/Filenames.v, proofs in Ext/*Proofs.v. *)
 From Coq Require Import String.
 From Coq Require Import List Ascii Bool Arith Sorting.Sorted.
-From SZ Require Import Ext.TextFile Ext.TextFileProofs Ext.Filenames Ext.FilenamesProofs.
+From SZ Require Import Ext.TextFile.
+From SZ Require Import Ext.TextFileProofs.
+From SZ Require Import Ext.Filenames.
+From SZ Require Import Ext.FilenamesProofs.
 Import ListNotations.
 
 (* ---------------- from_textfile ----------------
